@@ -213,6 +213,23 @@ fn check_seq(l: &mut Local<'_>, mode: u8, map: &Beatmap, attrs: &DifficultyAttri
             l.violation("builders_differ", || ctxs(format!("source #{src}: Performance configured through its own setters differs from .difficulty(same setters)\n own: {own:?}\n via: {via:?}")));
             return false;
         }
+        // an osu! calculator that holds attributes cannot be converted: the mode switch is documented as a no-op that hands
+        // the calculator back — with every setting it had
+        if src == 1 && mode == 0 {
+            for target in [rosu_pp::model::mode::GameMode::Taiko, rosu_pp::model::mode::GameMode::Catch, rosu_pp::model::mode::GameMode::Mania] {
+                let ignored = own.clone().mode_or_ignore(target);
+                let tried = own.clone().try_mode(target);
+                l.checked(2);
+                let back = match &tried {
+                    Err(p) => Some(p),
+                    Ok(_) => None,
+                };
+                if ignored != own || back != Some(&own) {
+                    l.violation("settings_lost_in_refused_switch", || ctxs(format!("an attribute-backed osu! calculator after mode_or_ignore / try_mode({target:?})\n before        : {own:?}\n mode_or_ignore: {ignored:?}\n try_mode      : {tried:?}")));
+                    return false;
+                }
+            }
+        }
         let own_sorted = sorted.iter().fold(mk(), |p, s| s.on_performance(p, mode));
         if own != own_sorted {
             l.violation("order_performance", || ctxs(format!("source #{src}: Performance depends on the order of independent setters")));
